@@ -13,7 +13,7 @@ import types
 from dataclasses import dataclass
 from typing import List, Optional
 
-from adaptix import Retort
+from adaptix import ProviderNotFoundError, Retort
 from adaptix._internal.code_tools import compiler as _compiler
 from adaptix._internal.retort import searching_retort as _searching_retort
 from adaptix.conversion import get_converter
@@ -245,7 +245,40 @@ def h8():
                                                repr(outer.dump(NODE_OBJ, Node))]})
 
 
-HARNESSES = {"H1": h1, "H2": h2, "H3": h3, "H4": h4, "H5": h5, "H6": h6, "H7": h7, "H8": h8}
+class NoLoader:
+    """no loader can be produced for this class (its constructor parameter has no type)"""
+
+    def __init__(self, x):
+        self.x = x
+
+
+@dataclass
+class HoldsNoLoader:
+    a: int
+    b: NoLoader
+
+
+def h9():
+    """a request that FAILS (ProviderNotFoundError, directly and below a model) next to an ordinary first use: the failure must
+    leave the retort usable for the other thread"""
+    _fresh_world()
+    r = Retort()
+
+    def failing():
+        out = []
+        for tp in (NoLoader, HoldsNoLoader):
+            try:
+                r.get_loader(tp)
+                out.append("created")
+            except ProviderNotFoundError:
+                out.append("refused")
+        return repr(out)
+
+    return ([failing, lambda: repr(r.load(NODE_DATA, Node))],
+            {"retort": r, "post": lambda: [repr(r.load(NODE_DATA, Node)), failing(), repr(r.dump(NODE_OBJ, Node))]})
+
+
+HARNESSES = {"H1": h1, "H2": h2, "H3": h3, "H4": h4, "H5": h5, "H6": h6, "H7": h7, "H8": h8, "H9": h9}
 
 _EXPECTED = {}
 
@@ -345,11 +378,11 @@ def explore_shard(args):
 
 PLAN = {
     "quick": [("H1", "R1", 2), ("H4", "R1", 2), ("H2", "R1", 1), ("H3", "R1", 1), ("H5", "R1", 1), ("H6", "R1", 1),
-              ("H7", "R1", 1), ("H8", "R1", 1), ("H1", "R2", 0), ("H2", "R2", 0)],
+              ("H7", "R1", 1), ("H8", "R1", 1), ("H9", "R1", 1), ("H1", "R2", 0), ("H2", "R2", 0)],
     "thorough": [("H1", "R1", 3), ("H4", "R1", 3), ("H2", "R1", 2), ("H3", "R1", 2), ("H5", "R1", 2), ("H6", "R1", 2),
-                 ("H7", "R1", 2), ("H8", "R1", 2),
+                 ("H7", "R1", 2), ("H8", "R1", 2), ("H9", "R1", 2),
                  ("H1", "R2", 1), ("H2", "R2", 1), ("H3", "R2", 1), ("H4", "R2", 1), ("H5", "R2", 1), ("H6", "R2", 1),
-                 ("H7", "R2", 1), ("H8", "R2", 1)],
+                 ("H7", "R2", 1), ("H8", "R2", 1), ("H9", "R2", 1)],
 }
 
 
